@@ -81,6 +81,9 @@ def jobs(tier):
     for enc in ('utf-8', 'latin-1'):
         sh.append(('hexjunk', enc))
     sh.append(('retrain', 'utf-8'))
+    # terminal files of more than 10 000 lines (what any real list gives), also under encodings that start a stream with a byte order mark
+    for enc in ('utf-8', 'utf-16', 'utf-8-sig'):
+        sh.append(('bigfile', enc))
     # a 16-bit encoding end to end (not ASCII compatible: exposes readers that ignore the ruleset encoding)
     sh.append(('omen_list', 'utf-16', [0x20, 0x41, 0x61, 0xE9, 0x430, 0x20AC, 0x3042, 0x1F600, 0xA0, 0x3000, 0x21, 0x31]))
     return sh
@@ -279,6 +282,10 @@ def compare_training(wd, lines, enc, acc, case, raw_bytes=None, keep_existing=Fa
                 got = list(getattr(sg, attr).get(int(n), {}))
                 if got != want:
                     fails.append(('terminal-scorer', '%s/%s: scorer loader %d values, file has %d%s' % (folder, fn, len(got), len(want), first_diff(got, want))))
+            # a length-indexed file holds values of exactly that length (a stray character glued to a value shows here even if all readers agree)
+            bad = [v for v in want if len(v) != int(n)]
+            if bad:
+                fails.append(('terminal-length', '%s/%s holds %d value(s) whose length is not %s, e.g. %r (line %d of %d)' % (folder, fn, len(bad), n, bad[0], want.index(bad[0]) + 1, len(want))))
     # ---- config.ini names exactly the files that exist
     import configparser
     import json
@@ -432,8 +439,22 @@ def run_retrain(enc, tier, acc):
     acc.sample({'layer': 'retrain', 'pool': RETRAIN_POOL, 'history_length': depth}, cap=1)
 
 
+def run_bigfile(enc, tier, acc):
+    nums = [str(x) for x in range(300000, 360000) if '19' not in str(x) and '20' not in str(x)][:10400 if tier == 'quick' else 25000]
+    lines = nums + ['password', 'Password1', 'x yz', 'caf\u00e9']
+    wd = tree.mkdtemp('pcfgmc-c07b-')
+    acc.evals += 1
+    acc.nontrivial += 1
+    case = {'layer': 'bigfile', 'encoding': enc, 'values': len(nums)}
+    for sig, msg in compare_training(wd, lines, enc, acc, case):
+        acc.fail(case, 'training list with %d distinct six-digit strings, encoding %s: %s' % (len(nums), enc, msg), 'bigfile-' + sig)
+    tree.rmtree(wd)
+
+
 def run_shard(shard, tier, acc):
     kind = shard[0]
+    if kind == 'bigfile':
+        return run_bigfile(shard[1], tier, acc)
     if kind == 'hexjunk':
         return run_hexjunk(shard[1], acc)
     if kind == 'retrain':
@@ -501,6 +522,10 @@ def replay(case):
         return msg
     tree.use()
     wd = tree.mkdtemp('pcfgmc-c07r-')
+    if case['layer'] == 'bigfile':
+        run_bigfile(case['encoding'], 'quick', acc)
+        tree.rmtree(wd)
+        return acc.failures[0]['msg'] if acc.failures else None
     if case['layer'] == 'retrain':
         fails = []
         for step, li in enumerate(case['history']):
